@@ -18,6 +18,7 @@ RULE = ('Seeded random 1-4 round histories on the linear-regression toy world (1
         '+ 50*|oracle32-oracle64|; ill-conditioned histories (oracle gap > 1e-2*scale, Adam with |g|<1e-4) are '
         'discarded and counted. Non-trivial: some cohort has >=2 clients of different sizes and (deg/prox) a client '
         'taking >=2 local steps; distinct by (family, sizes, hparams, optimizers, mu/lambda, cohorts).')
+RULE += (" Wave-4 additions: family 'reg' - HypCluster(1) / MimeLite built four times from the same loss and optimizer objects, alternately without / with an L2 regularizer, each against FedAvg on its own objective (sgd/momentum only); every chain re-reads all states it ever held at the end of the history.")
 ASSUMPTIONS = [
     'the loss ignores its random key (the statement relates the algorithms only for key-independent losses)',
     'both sides of a differential receive the same ClientDataset objects, the same keys and the same '
